@@ -390,20 +390,45 @@ def rw(run, p, E, rt):
     wd = p.method('PandasComparison', '_write_reference_dataframe')
     rd = p.method('PandasComparison', 'load_serialized_dataframe')
 
-    def ext_tests(f, attr):
+    from ..pyeval import Interp, Unsupported
+    SAMPLES = ['r.parquet', 'R.PARQUET', 'r.Parquet', 'r.csv', 'r.parquet.csv', 'r.csv.parquet', 'r', 'r.parq', 'dir.parquet/r.txt']
+
+    def uses_parquet(f, attr):
+        """For each sample path: is the to_parquet / read_parquet call of f reached?  The guards of the call (including those
+        implied by earlier early returns) are evaluated with the path parameter bound to the sample; locals that depend on
+        the path only (ext = os.path.splitext(path)[1].lower()) and helper predicates are evaluated too."""
         gm = GuardMap(f.node)
+        calls = [n for n in p.own_nodes(f) if isinstance(n, ast.Call) and isinstance(n.func, ast.Attribute) and n.func.attr == attr]
+        if not calls:
+            raise AnalysisError('%s no longer calls %s' % (f.short, attr))
+        pathp = [q for q in f.posparams if q in ('path', 'ref_path', 'expected_path', 'csvpath')]
+        if not pathp:
+            raise AnalysisError('%s: path parameter not found' % f.short)
         out = []
-        for n in p.own_nodes(f):
-            if isinstance(n, ast.Call) and isinstance(n.func, ast.Attribute) and n.func.attr == attr:
-                ch = gm.chain(n) or ()
-                out.append(sorted(g.text() for g in ch if g.kind == 'if'))
+        for sample in SAMPLES:
+            I = Interp(p)
+            env = {pathp[0]: sample}
+            for st in f.node.body:
+                if isinstance(st, ast.Assign) and len(st.targets) == 1 and isinstance(st.targets[0], ast.Name):
+                    try:
+                        env[st.targets[0].id] = I.expr(st.value, env, f.mod)
+                    except Unsupported:
+                        pass
+            reached = False
+            for c in calls:
+                try:
+                    ok = all(bool(I.expr(g.test, env, f.mod)) == bool(g.pol) for g in (gm.chain(c) or ()) if g.kind == 'if')
+                except Unsupported as e:
+                    raise AnalysisError('%s: guard of %s not evaluable: %s' % (f.short, attr, e))
+                reached = reached or ok
+            out.append(reached)
         return out
-    wt = ext_tests(wd, 'to_parquet')
-    rdt = ext_tests(rd, 'read_parquet')
-    defs_w = [norm(n) for n in p.own_nodes(wd) if isinstance(n, ast.Assign) and 'ext' in norm(n)[:5]]
-    defs_r = [norm(n) for n in p.own_nodes(rd) if isinstance(n, ast.Assign) and 'ext' in norm(n)[:5]]
-    run.ob('C10-RW', '%s::%s::parquet' % (wd.rel, wd.short), bool(wt) and wt == rdt and defs_w == defs_r,
-           'DataFrame references: to_parquet under %s (%s); read_parquet under %s (%s)' % (wt, defs_w, rdt, defs_r), fn=wd)
+    wt = uses_parquet(wd, 'to_parquet')
+    rdt = uses_parquet(rd, 'read_parquet')
+    want = [s_.lower().endswith('.parquet') for s_ in SAMPLES]
+    run.ob('C10-RW', '%s::%s::parquet' % (wd.rel, wd.short), wt == rdt == want,
+           'DataFrame references over %d sample paths: written as parquet for %s, read as parquet for %s' % (
+               len(SAMPLES), [s_ for s_, v in zip(SAMPLES, wt) if v], [s_ for s_, v in zip(SAMPLES, rdt) if v]), fn=wd)
     # text: encoding of writer vs reader
     readers = [p.method('FilesComparison', 'check_file'), p.method('FilesComparison', 'check_string_against_file')]
     txt_enc = [ast.unparse(e) if e is not None else None for (n, mode, e) in oc]
